@@ -7,6 +7,7 @@ import (
 	"math"
 	"sort"
 	"strconv"
+	"sync"
 
 	"verifharness/oracle"
 
@@ -16,29 +17,48 @@ import (
 
 // Spec names a tile matrix set: a built-in one, or a synthetic dyadic one.
 type Spec struct {
-	Name      string   `json:"name,omitempty"`      // built-in id
-	Depth     int      `json:"depth,omitempty"`     // synthetic: tile matrices 0..Depth
-	Cell      float64  `json:"cell,omitempty"`      // synthetic: cell size of the deepest matrix
-	Origin    float64  `json:"origin,omitempty"`    // synthetic: x (and y unless OriginY) of the bottom-left corner
-	OriginY   *float64 `json:"originY,omitempty"`   // synthetic: y of the bottom-left corner when different
-	TopLeft   bool     `json:"topLeft,omitempty"`   // synthetic: corner of origin top-left instead of bottom-left
-	TileWidth uint     `json:"tileWidth,omitempty"` // synthetic: tile width=height, default 1 (the tool takes floor(log2) of it)
-	ShiftX    float64  `json:"shiftX,omitempty"`    // built-in: every point of origin translated by (ShiftX, ShiftY), in document axis order
-	ShiftY    float64  `json:"shiftY,omitempty"`
+	Name       string   `json:"name,omitempty"`       // built-in id
+	Depth      int      `json:"depth,omitempty"`      // synthetic: tile matrices 0..Depth
+	Cell       float64  `json:"cell,omitempty"`       // synthetic: cell size of the deepest matrix
+	Origin     float64  `json:"origin,omitempty"`     // synthetic: x (and y unless OriginY) of the bottom-left corner
+	OriginY    *float64 `json:"originY,omitempty"`    // synthetic: y of the bottom-left corner when different
+	TopLeft    bool     `json:"topLeft,omitempty"`    // synthetic: corner of origin top-left instead of bottom-left
+	TileWidth  uint     `json:"tileWidth,omitempty"`  // synthetic: tile width=height, default 1 (the tool takes floor(log2) of it)
+	RootMatrix uint     `json:"rootMatrix,omitempty"` // synthetic: matrix 0 is RootMatrix x RootMatrix tiles (default 1)
+	AxesXY     bool     `json:"axesXY,omitempty"`     // synthetic with OriginY: the document lists the origin as [y, x] under orderedAxes X,Y (which tms20 swaps for an unknown CRS), so that the same two numbers mean the other point
+	ShiftX     float64  `json:"shiftX,omitempty"`     // built-in: every point of origin translated by (ShiftX, ShiftY), in document axis order
+	ShiftY     float64  `json:"shiftY,omitempty"`
+	// Meta (built-in): variants of the INFORMATIVE members, which must not influence any result: bit 0 = a boundingBox that
+	// starts exactly in the point of origin and whose opposite corner is slightly off the computed one; bit 1 = orderedAxes
+	// spelled differently (MetaAxes); the oracle facts of such a set are those of the set without the variation.
+	Meta      int      `json:"meta,omitempty"`
+	MetaAxes  []string `json:"metaAxes,omitempty"`
+	MetaSlack float64  `json:"metaSlack,omitempty"` // fraction of the root cell size by which the far corner of the box is off
 }
 
 func (s Spec) String() string {
 	if s.Name != "" {
+		n := s.Name
 		if s.ShiftX != 0 || s.ShiftY != 0 {
-			return fmt.Sprintf("%s+(%g,%g)", s.Name, s.ShiftX, s.ShiftY)
+			n = fmt.Sprintf("%s+(%g,%g)", s.Name, s.ShiftX, s.ShiftY)
 		}
-		return s.Name
+		if s.Meta != 0 {
+			n += fmt.Sprintf("~meta(%d,%v,%g)", s.Meta, s.MetaAxes, s.MetaSlack)
+		}
+		return n
 	}
 	oy := s.Origin
 	if s.OriginY != nil {
 		oy = *s.OriginY
 	}
-	return fmt.Sprintf("dyadic(depth=%d,cell=%g,origin=%g/%g,topLeft=%v,tile=%d)", s.Depth, s.Cell, s.Origin, oy, s.TopLeft, max(s.TileWidth, 1))
+	extra := ""
+	if s.RootMatrix > 1 {
+		extra += fmt.Sprintf(",root=%dx%d", s.RootMatrix, s.RootMatrix)
+	}
+	if s.AxesXY {
+		extra += ",axes=X,Y(swapped)"
+	}
+	return fmt.Sprintf("dyadic(depth=%d,cell=%g,origin=%g/%g,topLeft=%v,tile=%d%s)", s.Depth, s.Cell, s.Origin, oy, s.TopLeft, max(s.TileWidth, 1), extra)
 }
 
 type fakeCRS struct{}
@@ -52,8 +72,34 @@ func (fakeCRS) Code() string        { return "" }
 func Build(s Spec) (tms20.TileMatrixSet, error) {
 	if s.Name != "" {
 		t, err := tms20.LoadEmbeddedTileMatrixSet(s.Name)
-		if err != nil || (s.ShiftX == 0 && s.ShiftY == 0) {
+		if err != nil || (s.ShiftX == 0 && s.ShiftY == 0 && s.Meta == 0) {
 			return t, err
+		}
+		if s.Meta != 0 {
+			c := t // shallow copy: the tile matrices (and their origin pointers) are shared with the embedded set
+			if s.Meta&2 != 0 {
+				c.OrderedAxes = append([]string{}, s.MetaAxes...)
+			}
+			if s.Meta&1 != 0 {
+				bl, tr, err := t.MatrixBoundingBox(0)
+				if err != nil {
+					return t, err
+				}
+				root := t.TileMatrices[0]
+				d := s.MetaSlack * root.CellSize
+				ll, ur := [2]float64{bl[0], bl[1]}, [2]float64{tr[0], tr[1]}
+				if root.CornerOfOrigin == tms20.BottomLeft { // the origin corner stays exact, the opposite one moves
+					ur[0], ur[1] = ur[0]+d, ur[1]+d
+				} else {
+					ur[0], ll[1] = ur[0]+d, ll[1]-d
+				}
+				if yx, err := tms20.IsLatLon(t.CRS); err == nil && yx {
+					ll, ur = [2]float64{ll[1], ll[0]}, [2]float64{ur[1], ur[0]}
+				}
+				pll, pur := tms20.TwoDPoint(ll), tms20.TwoDPoint(ur)
+				c.BoundingBox = &tms20.TwoDBoundingBox{LowerLeft: &pll, UpperRight: &pur, CRS: t.CRS}
+			}
+			return c, nil
 		}
 		// a translated copy: same matrices, every point of origin moved by the same vector (the embedded value is not touched)
 		c := t
@@ -76,22 +122,44 @@ func Build(s Spec) (tms20.TileMatrixSet, error) {
 		oy = *s.OriginY
 		axes = []string{"Y", "X"} // not swapped by tms20: the point is read as x,y
 	}
+	rm := max(s.RootMatrix, 1)
 	// all synthetic sets carry the same (legal, non-empty) identifier: an id is a label, not a key
 	t := tms20.TileMatrixSet{ID: "VerifSynthetic", CRS: fakeCRS{}, OrderedAxes: axes, TileMatrices: map[tms20.TMID]tms20.TileMatrix{}}
-	extent := s.Cell * float64(tw) * float64(uint(1)<<uint(s.Depth))
+	extent := s.Cell * float64(tw) * float64(rm) * float64(uint(1)<<uint(s.Depth))
 	for id := 0; id <= s.Depth; id++ {
 		cs := s.Cell * float64(uint(1)<<uint(s.Depth-id))
-		org := tms20.TwoDPoint([2]float64{ox, oy})
+		org := [2]float64{ox, oy}
 		corner := tms20.BottomLeft
 		if s.TopLeft {
 			corner = tms20.TopLeft
-			org = tms20.TwoDPoint([2]float64{ox, oy + extent})
+			org = [2]float64{ox, oy + extent}
 		}
-		o := org
+		if s.AxesXY && s.OriginY != nil {
+			t.OrderedAxes = []string{"X", "Y"}
+			org = [2]float64{org[1], org[0]}
+		}
 		t.TileMatrices[id] = tms20.TileMatrix{ID: strconv.Itoa(id), ScaleDenominator: cs / tms20.StandardizedRenderingPixelSize, CellSize: cs,
-			CornerOfOrigin: corner, PointOfOrigin: &o, TileWidth: tw, TileHeight: tw, MatrixWidth: 1 << uint(id), MatrixHeight: 1 << uint(id)}
+			CornerOfOrigin: corner, PointOfOrigin: internPoint(org), TileWidth: tw, TileHeight: tw, MatrixWidth: rm << uint(id), MatrixHeight: rm << uint(id)}
 	}
 	return t, nil
+}
+
+// internPoint: equal points of origin share ONE pointer, across tile matrices and across sets (pointers to immutable,
+// equal values: whoever keys on the pointer must not take it for the identity of a set).
+var (
+	internMu  sync.Mutex
+	internTab = map[[2]float64]*tms20.TwoDPoint{}
+)
+
+func internPoint(p [2]float64) *tms20.TwoDPoint {
+	internMu.Lock()
+	defer internMu.Unlock()
+	if q, ok := internTab[p]; ok {
+		return q
+	}
+	q := tms20.TwoDPoint(p)
+	internTab[p] = &q
+	return &q
 }
 
 // Set is a tile matrix set with the integer facts the oracles need.
@@ -112,6 +180,18 @@ func NewSet(s Spec) (*Set, error) {
 	t, err := Build(s)
 	if err != nil {
 		return nil, err
+	}
+	if s.Meta != 0 {
+		// informative members do not matter: the facts are those of the plain set, the tool gets the variant
+		base := s
+		base.Meta, base.MetaAxes, base.MetaSlack = 0, nil, 0
+		gs, err := NewSet(base)
+		if err != nil {
+			return nil, err
+		}
+		v := *gs
+		v.Spec, v.TMS = s, t
+		return &v, nil
 	}
 	return FromTMS(s, t)
 }
